@@ -29,7 +29,9 @@ PROPS["C11"] = {
              "at least one '..' (or, for finaladdr, both sides carry a sub-path; abs: every case); distinct = hash of the case. "
              "builderjoin: rapid draws a registry package whose single version resolves to a real address with sub-path r and 1-4 "
              "(final) registry requests with sub-paths s in one build; the finder's own call log must show the module at r joined with s "
-             "analysed for every request, cached answers included (non-trivial = requests with different sub-paths)."),
+             "analysed for every request, cached answers included (non-trivial = requests with different sub-paths); or 1-3 relative dependencies "
+             "(0-3 leading '..', names such as 'rel..', '..shared', '...', '.hidden') reported by a finder at a module location: each is analysed "
+             "at the location's sub-path followed by the relative path per the segment model, and one that climbs above the package root fails the build."),
     "assumptions": ["the reference is a segment stack written from the property text", "bases are rendered from abstract (kind, segments) values and parsed by go-slug's own parsers"],
     "quick": [
         plain("exh-pairs", "^TestExhaustivePairs$", shards=2),
@@ -112,7 +114,9 @@ PROPS["C15"] = {
              "sequential interpreter written from the property text gives the expected tree (paths exactly, type, content, Perm bits, mtime "
              "of files and explicit dirs - ns for PAX, seconds otherwise - link targets); unrepresentable types must make Unpack fail; "
              "sequences the property does not fix (type change at a path, link over an existing path, entry below a link/file, link with "
-             "absolute name) may error but must match the model if they succeed. Non-trivial = duplicate path, child before parent dir, "
+             "absolute name) may error but must match the model if they succeed. Locked-directory sub-check (matters in the unprivileged and umask jobs): "
+             "a directory recorded without search permission (0000-0400, 0100-0300) with a child directory before or after it - Unpack errs, or, "
+             "if it returns nil, parent and child carry exactly the recorded mode and time. Non-trivial = duplicate path, child before parent dir, "
              "read-only file, restrictive dir mode, PAX header, leading '/' or './', unrepresentable type; distinct by case hash."),
     "assumptions": ["implicit parent directories' mode/mtime are unspecified", "special mode bits are not compared", "unprivileged: a directory without owner r-x may legitimately make Unpack fail"],
     "quick": [plain("exh-root", "^TestExhaustive$", shards=3, env={"VERIF_C15_MAXLEN": 3}),
@@ -205,7 +209,7 @@ PROPS["C16"] = {
              "rules, unreadable rule file, trees with links, the same tree; Unpack; a bundle build) then the Pack under test, with the same and "
              "a fresh Packer. (3) concurrency in a -race binary: 2-8 goroutines pack different (tree, rules) pairs 1-4 times each BEFORE any "
              "sequential use in that process (member 0's rule file starts with '!', member 1 has none), each result compared with its "
-             "sequential baseline; a race report with a go-slug frame is a violation. Non-trivial = tree with links or ignore processing, a "
+             "sequential baseline; a race report with a go-slug frame is a violation. History operations include Packs that fail (nested dereferencing loop, illegal link after other entries); trees may link to a directory outside. Non-trivial = tree with links or ignore processing, a "
              "non-empty history, or a concurrent round; distinct by case hash."),
     "assumptions": ["the harness does not own the Go scheduler: interleavings are sampled", "cwd is process-global, spelling variants run sequentially"],
     "quick": [rapid("spelling", "^TestPropSpelling$", 150, shards=3), rapid("history", "^TestPropHistory$", 250, shards=2),
@@ -387,7 +391,7 @@ PROPS["C18"] = {
              "strictly inside the root; (2) on those and on real bundles built from worlds with aliases: for every package directory and "
              "existing / non-existing / non-ASCII tails, spelled absolute, relative to the cwd and with '.'/'..' segments, "
              "SourceForLocalPath succeeds and LocalPathForSource of its result is Clean(Abs(path)); the root, the manifest file, unknown "
-             "directories, siblings sharing the root's name prefix, a package directory's name in another letter case and paths above the root are refused. Thorough: native fuzzing of manifest "
+             "directories, (every manifest is opened twice: at its directory and through a symlink to it, with paths spelled through the root as given; forward results may lie below either spelling of the root) siblings sharing the root's name prefix, a package directory's name in another letter case and paths above the root are refused. Thorough: native fuzzing of manifest "
              "bytes. Non-trivial = hostile 'local' or a real bundle; distinct by case hash."),
     "assumptions": ["file names are valid UTF-8 (an address is text)"],
     "quick": [rapid("manifest", "^TestPropManifest$", 6000, shards=4), rapid("inverse", "^TestPropInverse$", 500, shards=4)],
